@@ -20,7 +20,7 @@ CHECKS = {
          "Decides four structural necessary conditions of placeholder/value agreement for every renderer and every nested render site: the parameterizer is inherited and no child is str()-rendered; evaluation order of value-bearing slots equals textual order; value-wrapper constructor and create_param arguments are guarded against Terms; inline/parameterised branches agree on the alias wrapper and the placeholder table is total, in dialect style, 1-based. The token-for-token relation between the two renderings and SQLite execution are not decided.",
          "symbolic evaluator covers the string-building subset the renderers use (fails closed otherwise); reference placeholder styles per dialect", "2/C04"),
  "C06": ("exhaustive finite table from symbolic rendering with concrete operator members and child objects vs SQL precedence table",
-         "Exhaustive over (parent renderer, operand slot, parent operator) x 13 child kinds (about 500 cells): each composite Term class is rendered symbolically, the parenthesisation decision functions fold to constants, and every cell is compared with the standard precedence/associativity table; adjacent '-' fusion is checked on the same table; every Term class must classify (atom/prefix/infix/postfix). Local correctness of all cells implies correctness at any depth because renderers concatenate child text. A class that reads ctx.subcriterion counts as wrapped only if every render path is bracketed under both with_alias values; operator-shaped renderers outside the reviewed table are violations. Renderings that join operands with an operator as separator must request brackets for each operand.",
+         "Exhaustive over (parent renderer, operand slot, parent operator) x 13 child kinds (about 500 cells): each composite Term class is rendered symbolically, the parenthesisation decision functions fold to constants, and every cell is compared with the standard precedence/associativity table; adjacent '-' fusion is checked on the same table; every Term class must classify (atom/prefix/infix/postfix). Local correctness of all cells implies correctness at any depth because renderers concatenate child text. A class that reads ctx.subcriterion counts as wrapped only if every render path is bracketed under both with_alias values; operator-shaped renderers outside the reviewed table are violations. Renderings that join operands with an operator as separator must request brackets for each operand. A class that parents treat as an atom has no render path that prints its operand bare (reviewed exceptions listed).",
          "reference precedence table of standard SQL shared by the six dialects; SQLite evaluation is not consulted", "2/C06"),
  "C08": ("context-flow analysis over render skeletons + sibling comparison of dialect overrides with the generic methods",
          "At each of ~140 nested render sites the abstract SqlContext passed down must inherit the dialect-bearing fields (own-dialect constant overrides and the outermost default excepted); str()-rendered children, context fields read through a value-manufacturing __getattr__ and fields dropped by SqlContext.copy are flagged; every dialect override that changes what a generic node can also render is tabulated against ctx.dialect use. Cross-dialect token-stream equality is not decided. Every convention field of every shipped dialect context must reach the operands of a top-level set operation (re-derived, forced by the builder, or equal to the default) (R1c).",
@@ -35,7 +35,7 @@ CHECKS = {
          "Every Term subclass in the live class table is rendered with a marker alias: exactly once and last when with_alias is on, never when off (R1); every operand slot of every composite must pass with_alias=False (R2); defining positions of all builder classes pass True (R3); GROUP BY/ORDER BY alias references are guarded by membership in the select list's aliases with alias-free fallback (R4). Join conditions are not rendered as defining positions; the dialect alias-reference policy reaches every entry path (R5, inherited from C08/R1c).",
          "class-hierarchy resolution; user subclasses of Term outside the repository", "2/C12"),
  "C05": ("quote-wrap-requires-escape rule over render skeletons + wrapper-class coverage lint over value positions",
-         "Decides the escaping discipline at every site that puts text between string quotes (inner text must be .replace(q, q*2)-escaped on the same quote, quote-free by kind, or a rendered term), the dialect wrapper coverage of every value position of the builders, and single-fragment value renderers. The decoded-value round trip over the value space is not decided. No delimiter is doubled twice on one render path of a value wrapper, super()/cls recursion included (R4). Value wrappers are judged by an exhaustive table (wrapper class x value kind, kinds extended by every type the formatter tests with isinstance) evaluated on typed symbolic values: one quoted literal, quote doubled, the dialect's backslash rule applied to every kind that can contain one, Enum members never formatted as members (R6).",
+         "Decides the escaping discipline at every site that puts text between string quotes (inner text must be .replace(q, q*2)-escaped on the same quote, quote-free by kind, or a rendered term), the dialect wrapper coverage of every value position of the builders, and single-fragment value renderers. The decoded-value round trip over the value space is not decided. No delimiter is doubled twice on one render path of a value wrapper, super()/cls recursion included (R4). Value wrappers are judged by an exhaustive table (wrapper class x value kind, kinds extended by every type the formatter tests with isinstance) evaluated on typed symbolic values: one quoted literal, quote doubled, the dialect's backslash rule applied to every kind that can contain one, Enum members never formatted as members (R6). JSON string tokens assembled by the JSON term backslash-escape delimiter and backslash.",
          "SQL standard quote doubling and MySQL's backslash rule as oracles; symbolic evaluator subset", "2/C05"),
  "C07": ("name-hole quoting analysis over render skeletons + folding of quote expressions under the six shipped contexts",
          "Every hole that prints a name-bearing attribute (name/_name/_table_name/alias/table qualifier) in every renderer must sit between identical identifier-quote holes; the quote characters of definition and reference sites are evaluated under the six shipped SQL_CONTEXT records and must coincide; the quoted text must have the delimiter doubled. The name space and engine execution are not explored. Every row-source slot (FROM item, UPDATE target, joined item) must write the table alias exactly once (R4); str()-formatted children inherited from C08 (R5).",
@@ -47,16 +47,16 @@ CHECKS = {
          "For 6 builder classes x 7 statement kinds every clause keyword occurs at most once on any consistent path and in the reference order; every renderer's literal brackets balance on every path; incomplete builders fold to '' in all copies of the guards; every (builder method, foreign clause read, attribute written) dependence triple must be in a reviewed table (order-sensitive ones are known findings). SQLite parser acceptance and str() equality over permutations are not decided. Repeatable builders write every attribute monotonically (R5); two builder methods never overwrite one attribute with different values outside the reviewed same-clause setters (R6).",
          "reference clause-order tables per statement kind; disjoint-effects-commute argument", "2/C13"),
  "C14": ("frozen guard table checked for presence, exception class and dominance (ast) + join availability data flow + C17 obligations",
-         "38 documented rejections: each must raise the documented exception reading the guarded attributes and dominate the write it protects (not inside a possibly-empty loop; every operand for set operations); do_join/JoinOn.validate must feed FROM, update table, CTEs, existing joins and the joined item into the availability set and raise iff the difference is non-empty; exactness of the set arithmetic inherits C17. 'Valid ones never are' over arbitrary object graphs is not decided beyond that. Table-less criterion fields are never reported missing; no attribute is read through a value-manufacturing __getattr__ on a declared class that lacks it (R4); state read by a guard is not shared between copies (inherited from C01).",
+         "38 documented rejections: each must raise the documented exception reading the guarded attributes and dominate the write it protects (not inside a possibly-empty loop; every operand for set operations); do_join/JoinOn.validate must feed FROM, update table, CTEs, existing joins and the joined item into the availability set and raise iff the difference is non-empty; exactness of the set arithmetic inherits C17. 'Valid ones never are' over arbitrary object graphs is not decided beyond that. Table-less criterion fields are never reported missing; no attribute is read through a value-manufacturing __getattr__ on a declared class that lacks it (R4); state read by a guard is not shared between copies (inherited from C01). A guard that protects writes is not nested under an unrelated condition.",
          "guard table confirmed by reading (floor = today's count); Python set semantics", "2/C14"),
  "C16": ("three-way sibling agreement (rendered slots / nodes_ traversal / replace_table rewrites) per class and per clause attribute",
-         "For every Term subclass and every clause attribute of every builder class: rendered U traversed children must be rewritten from the same attribute by the effective replace_table (super() delegation followed); holders of children must not inherit the no-op; FROM items must be recursed into; replace_table calls must resolve on the declared/narrowed class of the receiver; siblings agree. The string equality with 'built with new from the start' is not computed.",
+         "For every Term subclass and every clause attribute of every builder class: rendered U traversed children must be rewritten from the same attribute by the effective replace_table (super() delegation followed); holders of children must not inherit the no-op; FROM items must be recursed into; replace_table calls must resolve on the declared/narrowed class of the receiver; siblings agree. The string equality with 'built with new from the start' is not computed. A child is rewritten unconditionally (only type/None tests and comparisons with the exchanged tables may guard it).",
          "docstring contract 'replaces all occurrences'; class-hierarchy resolution", "2/C16"),
  "C17": ("hash-key/eq-key comparison via render skeletons of __hash__, bool-eq lint at set sites, rendered-vs-traversed agreement",
-         "For every class defining __eq__/__hash__ the attributes that can influence the hash (through the get_sql skeleton it hashes) must be a subset of those compared by __eq__; set element classes must have a bool __eq__ or a hash separating every distinct reference; nodes_() must traverse every rendered child. Membership answers on generated objects are not computed. A child rendered as a component of a tuple element must be reached as that component; a hash that includes the class requires an exact-class __eq__.",
+         "For every class defining __eq__/__hash__ the attributes that can influence the hash (through the get_sql skeleton it hashes) must be a subset of those compared by __eq__; set element classes must have a bool __eq__ or a hash separating every distinct reference; nodes_() must traverse every rendered child. Membership answers on generated objects are not computed. A child rendered as a component of a tuple element must be reached as that component; a hash that includes the class requires an exact-class __eq__. Traversal of a child is guarded only by type/None tests on it.",
          "Python data-model contract; hash collisions of distinct strings ignored", "2/C17"),
  "C18": ("regex AST shape proof (re._parser) + symbolic folding of the Interval renderer",
-         "Exhaustive over 4 trim alternatives, 7 template slots and the shipped dialect templates: every alternative is anchored, consumes only zeros and the template's separators and touches retained text with a separator (so only whole zero fields at the ends can be removed); slot order, separators, sign, unit designator, per-dialect quoting form and the untrimmed special cases are folded from the renderer. Numeric read-back for arbitrary digit patterns is not computed. Positions that can hold an Interval render it through get_sql(ctx) (inherited from C08/R1).",
+         "Exhaustive over 4 trim alternatives, 7 template slots and the shipped dialect templates: every alternative is anchored, consumes only zeros and the template's separators and touches retained text with a separator (so only whole zero fields at the ends can be removed); slot order, separators, sign, unit designator, per-dialect quoting form and the untrimmed special cases are folded from the renderer. Numeric read-back for arbitrary digit patterns is not computed. Positions that can hold an Interval render it through get_sql(ctx) (inherited from C08/R1). Interval.get_sql writes no state (no memo shared between objects); the statement's dialect reaches every entry path (inherited from C08/R1c); a constructor that recomputes its component parameters is refused (exit 2) rather than judged.",
          "field layout implied by the unit designator", "2/C18"),
 }
 
